@@ -75,13 +75,13 @@ macro_rules! receiver_harness {
         }
     };
 }
-//@h name=c02_l2_receiver_base tier=quick mode=func timeout=1200 desc="setup_receiver in Base mode: key (as handed to the AEAD), base_nonce, exporter_secret and initial seq all equal RFC 9180 SetupBaseR / KeySchedule; DecapError iff Decap fails" bounds="all skR, enc (2^32); info 0..=2 B symbolic; model suite DHKEM(XorDh,LinKdf)/LinKdf/SpyAead16 (Nk=16,Nn=12,Nh=8); unwind 20"
+//@h name=c02_l2_receiver_base tier=quick mode=func also=C01 timeout=1200 desc="setup_receiver in Base mode: key (as handed to the AEAD), base_nonce, exporter_secret and initial seq all equal RFC 9180 SetupBaseR / KeySchedule; DecapError iff Decap fails" bounds="all skR, enc (2^32); info 0..=2 B symbolic; model suite DHKEM(XorDh,LinKdf)/LinKdf/SpyAead16 (Nk=16,Nn=12,Nh=8); unwind 20"
 receiver_harness!(c02_l2_receiver_base, 0);
-//@h name=c02_l2_receiver_psk tier=quick mode=func timeout=1200 desc="same for Psk mode (mode byte 1, psk -> secret extract, psk_id -> psk_id_hash)" bounds="as Base plus psk, psk_id 1..=2 B each symbolic"
+//@h name=c02_l2_receiver_psk tier=quick mode=func also=C15,C01 timeout=1200 desc="same for Psk mode (mode byte 1, psk -> secret extract, psk_id -> psk_id_hash)" bounds="as Base plus psk, psk_id 1..=2 B each symbolic"
 receiver_harness!(c02_l2_receiver_psk, 1);
-//@h name=c02_l2_receiver_auth tier=quick mode=func timeout=1200 desc="same for Auth mode (AuthDecap with the expected sender key)" bounds="as Base plus all 2^16 pkS"
+//@h name=c02_l2_receiver_auth tier=quick mode=func also=C01 timeout=1200 desc="same for Auth mode (AuthDecap with the expected sender key)" bounds="as Base plus all 2^16 pkS"
 receiver_harness!(c02_l2_receiver_auth, 2);
-//@h name=c02_l2_receiver_authpsk tier=quick mode=func timeout=1200 desc="same for AuthPsk mode" bounds="as Auth plus psk, psk_id 1..=2 B"
+//@h name=c02_l2_receiver_authpsk tier=quick mode=func also=C15,C01 timeout=1200 desc="same for AuthPsk mode" bounds="as Auth plus psk, psk_id 1..=2 B"
 receiver_harness!(c02_l2_receiver_authpsk, 3);
 
 macro_rules! sender_harness {
@@ -139,13 +139,13 @@ macro_rules! sender_harness {
         }
     };
 }
-//@h name=c02_l2_sender_base tier=quick mode=func timeout=1200 desc="setup_sender in Base mode with a scripted RNG: enc, key, base_nonce, exporter_secret all equal RFC 9180 SetupBaseS with skE = DeriveKeyPair(the Nsk bytes drawn); exactly Nsk bytes drawn; EncapError iff Encap fails" bounds="all RNG outputs, pkR; info 0..=2 B; model suite; unwind 20"
+//@h name=c02_l2_sender_base tier=quick mode=func also=C01 timeout=1200 desc="setup_sender in Base mode with a scripted RNG: enc, key, base_nonce, exporter_secret all equal RFC 9180 SetupBaseS with skE = DeriveKeyPair(the Nsk bytes drawn); exactly Nsk bytes drawn; EncapError iff Encap fails" bounds="all RNG outputs, pkR; info 0..=2 B; model suite; unwind 20"
 sender_harness!(c02_l2_sender_base, 0);
-//@h name=c02_l2_sender_psk tier=quick mode=func timeout=1200 desc="same for Psk mode" bounds="as Base plus psk, psk_id 1..=2 B"
+//@h name=c02_l2_sender_psk tier=quick mode=func also=C15,C01 timeout=1200 desc="same for Psk mode" bounds="as Base plus psk, psk_id 1..=2 B"
 sender_harness!(c02_l2_sender_psk, 1);
-//@h name=c02_l2_sender_auth tier=quick mode=func timeout=1200 desc="same for Auth mode (AuthEncap with the sender identity key)" bounds="as Base plus all 2^16 skS"
+//@h name=c02_l2_sender_auth tier=quick mode=func also=C01 timeout=1200 desc="same for Auth mode (AuthEncap with the sender identity key)" bounds="as Base plus all 2^16 skS"
 sender_harness!(c02_l2_sender_auth, 2);
-//@h name=c02_l2_sender_authpsk tier=quick mode=func timeout=1200 desc="same for AuthPsk mode" bounds="as Auth plus psk, psk_id 1..=2 B"
+//@h name=c02_l2_sender_authpsk tier=quick mode=func also=C15,C01 timeout=1200 desc="same for AuthPsk mode" bounds="as Auth plus psk, psk_id 1..=2 B"
 sender_harness!(c02_l2_sender_authpsk, 3);
 
 //@h name=c02_l0_labeled_kdf_real tier=quick mode=func also=C03,C11,C01,C15 timeout=900 desc="UN-stubbed anchor: hpke's labeled_extract / labeled_expand running through the REAL hkdf and hmac crates over the model hash equal the hand-written RFC 9180 section 4 / RFC 5869 / RFC 2104 reference for arbitrary salt, suite id, ikm and info (this is what justifies replacing the hkdf crate by its functional model in the composed harnesses)" bounds="salt 0..=8 B, ikm 0..=3 B, info 0..=3 B, suite id (10 B) symbolic; L = 12 (two HKDF blocks); LinHash; unwind 20"
